@@ -5,7 +5,9 @@
 //                     window of it, raw / hex / base64) occurs in bytes handed to storage, in export bundles or
 //                     (with the VerifWrapCache hook, cache_hook.go) in key-cache entries;
 //   (b) binding.go  — a stored key file / key ring copied over another owner's file fails to load;
-//   (c) tamper.go   — every single-bit flip of every stored v2 key ring (v1 key file) is rejected on read;
+//   (c) tamper.go   — every single-bit flip of every stored v2 key ring (v1 key file) is rejected on read, and so is
+//                     every byte-VALUE change of every stored v2 key ring (der.go: the values that matter to a DER
+//                     reader in the quick tier, all 255 other values in the thorough tier);
 //   (d) confine.go  — hostile client ids / ring paths never make a keystore touch anything outside its root;
 //   (e) secrets.go  — created key files are 0600, directories 0700.
 // See /verif/notes/c07.md.
@@ -191,9 +193,9 @@ func populate(ks ksrig.FullKeyStore, gens int) error {
 
 // Run is the C07 monitor.
 func Run(r *ev.Run) {
-	r.Rule = "one evaluation = one oracle evaluation: one blob scanned for known secrets, one relocated file loaded, one single-bit flip read back, one keystore/back-end call with a hostile id or path checked for effects outside the root, one created file/directory mode checked. " +
+	r.Rule = "one evaluation = one oracle evaluation: one blob scanned for known secrets, one relocated file loaded, one single-bit flip or single-byte value change read back, one keystore/back-end call with a hostile id or path checked for effects outside the root, one created file/directory mode checked. " +
 		"Distinct classes: (format/configuration, oracle, key kind or storage operation, sink / file role / flipped region / hostile-id class). " +
-		"Flips: quick = every byte of every stored key ring and v1 key file, one bit per byte (bit index = (offset+seed) mod 8); thorough = all 8 bits. Everything is a pure function of VERIF_SEED except key values, which are only compared after reading them back."
+		"Flips: quick = every byte of every stored key ring and v1 key file, one bit per byte (bit index = (offset+seed) mod 8); thorough = all 8 bits. Byte values (v2 key rings, every offset): quick = value-1, value+1, value/2, each of 0x10..0x1f where the stored byte is 0x20, 0, 0x7f, 0x80, 0x81, 0xff (values equal to the stored byte skipped, duplicates removed, so the count depends on the stored bytes); thorough = all 255 other values (the directory store once more with the quick set through real file rewrites); classes of this sweep: (configuration, key kind, DER element of the changed byte, tag/length/content). Everything is a pure function of VERIF_SEED except key values, which are only compared after reading them back."
 	r.Assumptions = []string{
 		"crypto library replaced by the pure-Go gothemis stand-in (contract level: Secure Cell Seal authenticates data and context)",
 		"Redis storage / Redis back end not driven",
@@ -230,6 +232,13 @@ func Run(r *ev.Run) {
 	r.RequireSetAtLeast("b_near_identical_id_pairs_v2", len(nearPairs))
 	r.RequireAtLeast("c_flips_checked_v2", q(3000, 30000))
 	r.RequireAtLeast("c_flips_checked_v1", q(1000, 8000))
+	r.RequireAtLeast("c_byte_values_checked_v2", q(50000, 2500000))
+	r.RequireAtLeast("c_byte_values_checked_v2_tag_bytes", q(3000, 150000))
+	r.RequireAtLeast("c_byte_values_checked_v2_length_bytes", q(3000, 150000))
+	r.RequireAtLeast("c_byte_values_checked_v2_content_bytes", q(40000, 2000000))
+	r.RequireAtLeast("c_byte_values_checked_v2_signature_value_length_byte", q(18*20, 27*250))
+	r.RequireAtLeast("c_length_bytes_0x20_lowered_to_0x10..0x1f_v2", q(16*18, 16*27))
+	r.RequireSetAtLeast("c_byte_value_fields_v2", 30)
 	r.RequireAtLeast("d_hostile_calls_checked_v1", q(100, 100))
 	r.RequireAtLeast("d_hostile_calls_checked_v2_keystore", q(100, 100))
 	r.RequireAtLeast("d_hostile_calls_checked_v2_backend", q(50, 50))
